@@ -22,7 +22,7 @@ WORLD_OF = {
     "C02": [("resources", 0.85), ("components", 0.15)],
     "C03": "resources",
     "C04": "resources",
-    "C18": "resources",
+    "C18": [("resources", 0.88), ("components", 0.12)],
     "C19": "resources",
     "C05": "components",
     "C06": "components",
